@@ -177,6 +177,7 @@ pub fn run(opts: &Opts) -> i32 {
         }
         r.after()
     });
+    super::c14_close::run_part(opts, &rep);
     rep.require("receipts_with_exactly_one_pubrel", 1000);
     rep.require("releases_checked_against_pubcomp", 500);
     rep.require("receipt_drops", 200);
